@@ -94,6 +94,7 @@ fn main() {
             let what = args.get(2).map(|s| s.as_str()).unwrap_or("");
             match what {
                 "c16" => eng::c16::child_main(args[3].parse().unwrap(), args[4].parse().unwrap()),
+                "c05ovf" => eng::ctor::ovf_child_main(args[3].parse().unwrap(), args[4].parse().unwrap()),
                 "c07alloc" => eng::ctor::alloc_child_main(args[3].parse().unwrap(), args[4].parse().unwrap()),
                 _ => std::process::exit(2),
             }
